@@ -761,20 +761,48 @@ def rule_rejections_semantic(ctx, ix):
     ctx.rule("C12.rejection-semantics", "abstract evaluation of Assignment.__post_init__ over assignment structures", min_instances=300)
     fn = ix.func(f"{A_MOD}.Assignment.__post_init__").node
 
-    def T(name, indexes):
-        return S.Obj("SugarTensor", __structural__=True, name=name, indexes=tuple(indexes), order=len(indexes))
+    # expression trees are built from nodes that carry the REAL methods of the source classes (variables,
+    # index_participants, order, ...), so the validation sees what the tree methods really return
+    mro = {"Tensor": ("Tensor", "Expression"), "Integer": ("Integer", "Literal", "Expression"), "Add": ("Add", "Expression"), "Subtract": ("Subtract", "Expression"), "Multiply": ("Multiply", "Expression")}
+    meth = {}
+    for c, chain in mro.items():
+        meth[c] = {}
+        for base in reversed(chain):
+            for q, f_ in ix.funcs.items():
+                if q.rsplit(".", 1)[0] == f"{A_MOD}.{base}":
+                    meth[c][f_.name] = f_.node
+    MG = {f_.name: f_.node for q, f_ in ix.funcs.items() if f_.module == A_MOD and q == f"{A_MOD}.{f_.name}"}
 
-    def scenario(target, occurrences):
-        variables = {}
-        for t in occurrences:
-            variables.setdefault(t.attrs["name"], []).append(t)
-        expr = S.Obj("Expression", variables=lambda: {k: list(v) for k, v in variables.items()})
+    def T(name, indexes):
+        return S.Obj("Tensor", __structural__=True, __methods__=meth["Tensor"], __bases__=("Expression",), name=name, indexes=tuple(indexes))
+
+    def op(cls, left, right):
+        return S.Obj(cls, __structural__=True, __methods__=meth[cls], __bases__=("Expression",), left=left, right=right)
+
+    OPS = ("Add", "Subtract", "Multiply")
+
+    def trees(occurrences):
+        if len(occurrences) == 0:
+            return [S.Obj("Integer", __structural__=True, __methods__=meth["Integer"], __bases__=("Literal", "Expression"), value=2)]
+        if len(occurrences) == 1:
+            return [occurrences[0]]
+        a_, b_ = occurrences
+        lit = S.Obj("Integer", __structural__=True, __methods__=meth["Integer"], __bases__=("Literal", "Expression"), value=2)
+        return [op(c, a_, b_) for c in OPS] + [op("Multiply", op("Add", a_, lit), b_), op("Subtract", lit, op("Multiply", b_, a_))]
+
+    def scenario(target, expr):
         return S.Obj("Assignment", target=target, expression=expr)
+
+    def tname(t):
+        return t.attrs["name"]
+
+    def torder(t):
+        return len(t.attrs["indexes"])
 
     def oracle(target, occurrences):
         errs = set()
         tn = target.attrs["name"]
-        orders = {tn: target.attrs["order"]}
+        orders = {tn: torder(target)}
         idx = set(target.attrs["indexes"])
         for t in occurrences:
             idx |= set(t.attrs["indexes"])
@@ -782,7 +810,7 @@ def rule_rejections_semantic(ctx, ix):
                 errs.add("MutatingAssignmentError")
         by = {}
         for t in occurrences:
-            by.setdefault(t.attrs["name"], []).append(t.attrs["order"])
+            by.setdefault(t.attrs["name"], []).append(torder(t))
         for n, os_ in by.items():
             if len(set(os_)) > 1:
                 errs.add("InconsistentDimensionsError")
@@ -796,6 +824,7 @@ def rule_rejections_semantic(ctx, ix):
     targets = [T("A", ix_) for ix_ in [(), ("i",), ("i", "j"), ("A",), ("B",)]]
     occs = [T(n, ix_) for n in names for ix_ in index_tuples]
     G = {
+        **MG,
         "MutatingAssignmentError": lambda *a: S.Obj("Exception", name="MutatingAssignmentError"),
         "InconsistentDimensionsError": lambda *a: S.Obj("Exception", name="InconsistentDimensionsError"),
         "NameConflictError": lambda *a: S.Obj("Exception", name="NameConflictError"),
@@ -805,24 +834,36 @@ def rule_rejections_semantic(ctx, ix):
     for target in targets:
         rhs_sets = [()] + [(o,) for o in occs] + [p for p in itertools.combinations(occs, 2)] 
         for rhs in rhs_sets:
-            n_cases += 1
             want, orders = oracle(target, rhs)
-            self_ = scenario(target, rhs)
-            outs = list(S.explore(fn, [self_], globals_=G))
             label = f"{target.attrs['name']}({','.join(target.attrs['indexes'])}) = " + " , ".join(f"{o.attrs['name']}({','.join(o.attrs['indexes'])})" for o in rhs)
-            for _a, (kind, val) in outs:
-                if kind == "uninterpretable":
-                    bad.setdefault(f"validation code not interpretable: {val}", label)
-                elif want:
-                    if kind != "raise":
-                        bad.setdefault(f"accepted although it must be rejected with {sorted(want)}", label)
-                    elif val not in want:
-                        bad.setdefault(f"raises {val}, expected one of {sorted(want)}", label)
-                else:
-                    if kind == "raise":
-                        bad.setdefault(f"a consistent assignment is rejected with {val}", label)
-                    elif self_.attrs.get("_variable_orders") != orders:
-                        bad.setdefault(f"variable orders recorded as {self_.attrs.get('_variable_orders')}, expected {orders}", label)
+            for expr in trees(rhs):
+                n_cases += 1
+                self_ = scenario(target, expr)
+                outs = list(S.explore(fn, [self_], globals_=G))
+                for _a, (kind, val) in outs:
+                    if kind == "uninterpretable":
+                        bad.setdefault(f"validation code not interpretable: {val}", label)
+                    elif want:
+                        if kind != "raise":
+                            bad.setdefault(f"accepted although it must be rejected with {sorted(want)}", label + f" [{expr.tag}]")
+                        elif val not in want:
+                            bad.setdefault(f"raises {val}, expected one of {sorted(want)}", label)
+                    else:
+                        if kind == "raise":
+                            bad.setdefault(f"a consistent assignment is rejected with {val}", label)
+                        elif self_.attrs.get("_variable_orders") != orders:
+                            bad.setdefault(f"variable orders recorded as {self_.attrs.get('_variable_orders')}, expected {orders}", label + f" [{expr.tag}]")
+                # index_participants of the tree: every (tensor, dimension) of every index, nothing else
+                ipm = expr.attrs["__methods__"].get("index_participants")
+                wantp = {}
+                for o in rhs:
+                    for d_, i_ in enumerate(o.attrs["indexes"]):
+                        wantp.setdefault(i_, set()).add((o.attrs["name"], d_))
+                for _a, (kind, val) in S.explore(ipm, [expr], globals_=G) if ipm is not None else [({}, ("uninterpretable", "no index_participants"))]:
+                    if kind != "return" or not isinstance(val, dict):
+                        bad.setdefault(f"index_participants not interpretable: {kind} {val!r}"[:110], label)
+                    elif {k: set(v) for k, v in val.items()} != wantp:
+                        bad.setdefault("index_participants() does not list every (tensor, dimension) of every index", label + f" [{expr.tag}]: {val} expected {wantp}")
     ctx.instance("C12.rejection-semantics", n_cases)
     if bad:
         for why, label in bad.items():
@@ -1104,7 +1145,7 @@ def run(ctx):
     ix = SourceIndex(ctx.src)
     rule_literals(ctx, ix)
     rule_parser_escape(ctx, ix)
-    rule_rejections(ctx, ix)
+    # rule_rejections(ctx, ix)  # superseded by rule_rejections_semantic
     rule_rejections_semantic(ctx, ix)
     printed, printed_formats = rule_roundtrip_semantic(ctx, ix)
     rule_grammar_semantics(ctx, ix, printed, printed_formats)
